@@ -38,6 +38,30 @@ theorem relS_cases {x y : St × Res} (h : RelS x y) :
   simp [ctxOf, Ctx.inLoop]; omega
 @[simp] theorem ctxOf_subshell (st : List Frame) : ctxOf (.subshell :: st) = (ctxOf st).sub := by
   simp [ctxOf, Ctx.sub]
+@[simp] theorem ctxOf_trapFrame (st : List Frame) : ctxOf (.trap :: st) = (ctxOf st).trap := by
+  simp [ctxOf, Ctx.trap]
+
+theorem trapDue_eq (s : St) (st : List Frame) :
+    s.trapDue = trapDueS (ctxOf s.stack) { s with stack := st } := by
+  unfold St.trapDue trapDueS ctxOf
+  cases s.pending <;> cases s.stack.contains .trap <;> cases s.stack.contains .subshell <;> simp
+
+theorem finishPoll_sbs {a b : St} (h : SameButStack a b) (p : Nat) (r t : Res) :
+    RelS (finishPoll p a r t) (finishPoll p b r t) := by
+  obtain ⟨st, rfl⟩ := h
+  unfold finishPoll
+  cases t with
+  | continue_ => cases r <;> exact relS_mk ⟨st, rfl⟩
+  | outOfFuel => cases r <;> exact relS_mk ⟨st, rfl⟩
+  | break_ d =>
+    cases d with
+    | interrupt x => cases x <;> cases r <;> exact relS_mk ⟨st, rfl⟩
+    | continue_ n => cases r <;> exact relS_mk ⟨st, rfl⟩
+    | break_ n => cases r <;> exact relS_mk ⟨st, rfl⟩
+    | return_ x => cases r <;> exact relS_mk ⟨st, rfl⟩
+    | exit x => cases r <;> exact relS_mk ⟨st, rfl⟩
+    | abort x => cases r <;> exact relS_mk ⟨st, rfl⟩
+
 theorem ctxOf_cond_loops (st : List Frame) : (ctxOf st).cond.loops = (ctxOf st).loops := rfl
 
 theorem applyErrexit_eq (s : St) (st : List Frame) :
@@ -223,10 +247,11 @@ theorem ref_members (fuel : Nat) (ih : Ref fuel) :
     | outOfFuel => exact relS_mk ⟨st0, rfl⟩
     | continue_ =>
       simp only [St.applyResult]
-      exact ih.members { s with trace := c1.trace } _ rest _ ⟨st0, rfl⟩
+      exact ih.members { s with trace := c1.trace, pending := c1.pending } _ rest _ ⟨st0, rfl⟩
     | break_ d =>
       simp only [applyResult_stack']
-      exact ih.members { s with trace := (c1.applyResult (.break_ d)).trace } _ rest _ ⟨st0, rfl⟩
+      exact ih.members { s with trace := (c1.applyResult (.break_ d)).trace,
+                                pending := (c1.applyResult (.break_ d)).pending } _ rest _ ⟨st0, rfl⟩
 
 /-- only `ctx.sub` matters to the members of a pipeline -/
 theorem specPipeMembers_sub (fuel : Nat) : ∀ (ctx ctx' : Ctx) s cs f, ctx.sub = ctx'.sub →
@@ -266,13 +291,53 @@ theorem leaveJc_eq (s s1 : St) (h : s1.stack = s.enterJc.stack) : s.leaveJc s1 =
   · simp_all only [Bool.not_eq_true, ite_false, Bool.false_eq_true]
     cases s1; simp_all
 
+/-- the poll after a command refines the Spec's: same decision, the action run in the trap context -/
+theorem relS_pollWith (run : St → List Item → St × Res) (runS : Ctx → St → List Item → St × Res)
+    (hrun : ∀ s s' l, SameButStack s s' → RelS (run s l) (runS (ctxOf s.stack) s' l))
+    (s1 : St) (st : List Frame) (r : Res) :
+    RelS (pollWith run s1 r) (pollWithS runS (ctxOf s1.stack) { s1 with stack := st } r) := by
+  unfold pollWith pollWithS
+  rw [← trapDue_eq s1 st]
+  cases r with
+  | outOfFuel => exact relS_mk ⟨st, rfl⟩
+  | continue_ =>
+    simp only
+    cases s1.trapDue with
+    | none => exact relS_mk ⟨st, rfl⟩
+    | some body =>
+      simp only
+      have h1 := hrun ({ s1 with pending := false }.push .trap) { s1 with pending := false, stack := st } body ⟨st, rfl⟩
+      simp only [push_stack, ctxOf_trapFrame] at h1
+      obtain ⟨s2, t, st2, hx, hy⟩ := relS_cases h1
+      rw [hx, hy]
+      exact finishPoll_sbs (sbs_pop ⟨st2, rfl⟩) _ _ _
+  | break_ d =>
+    simp only
+    cases s1.trapDue with
+    | none => exact relS_mk ⟨st, rfl⟩
+    | some body =>
+      simp only
+      have h1 := hrun ({ s1 with pending := false }.push .trap) { s1 with pending := false, stack := st } body ⟨st, rfl⟩
+      simp only [push_stack, ctxOf_trapFrame] at h1
+      obtain ⟨s2, t, st2, hx, hy⟩ := relS_cases h1
+      rw [hx, hy]
+      exact finishPoll_sbs (sbs_pop ⟨st2, rfl⟩) _ _ _
+
 theorem ref_cmds (fuel : Nat) (ih : Ref fuel) :
     ∀ s s' cs, SameButStack s s' →
       RelS (execCommands (fuel+1) s cs) (specCommands (fuel+1) (ctxOf s.stack) s' cs) := by
   intro s s' cs h
   match cs with
   | [] => simp only [execCommands, specCommands]; obtain ⟨st0, rfl⟩ := h; exact relS_mk ⟨st0, rfl⟩
-  | [c] => simp only [execCommands, specCommands]; exact ih.cmd s s' c h
+  | [c] =>
+    simp only [execCommands, specCommands]
+    have b1 := (bal fuel).cmd s c
+    obtain ⟨s1, r, st1, hx, hy⟩ := relS_cases (ih.cmd s s' c h)
+    rw [hx] at b1
+    rw [hx, hy]
+    simp only at b1
+    rw [← b1]
+    exact relS_pollWith _ _ (fun a b l hab => ih.list a b l hab) s1 st1 r
   | c :: d :: t =>
     simp only [execCommands, specCommands]
     have b1 := (bal fuel).members s.enterJc (c :: d :: t) 0
@@ -504,6 +569,12 @@ theorem ref_cmd (fuel : Nat) (ih : Ref fuel) :
         | (rw [applyErrexit_eq ({ s with status := 2 }) st0]; exact relS_mk ⟨st0, rfl⟩)
   | specialErr w st => simp only [execCmd, specCmd]; exact relS_finish' _ st0 _ _ rfl
   | trapExit body => simp only [execCmd, specCmd]; exact relS_finish' _ st0 _ _ rfl
+  | trapSig body => simp only [execCmd, specCmd]; exact relS_finish' _ st0 _ _ rfl
+  | raise n => simp only [execCmd, specCmd]; exact relS_finish' _ st0 _ _ rfl
+  | raiseErr =>
+    simp only [execCmd, specCmd]
+    rw [expansionError_eq { s with pending := true } st0]
+    exact relS_mk ⟨st0, rfl⟩
   | group body => simp only [execCmd, specCmd]; exact ih.list s _ body ⟨st0, rfl⟩
   | call name nargs =>
     simp only [execCmd, specCmd, classify_stack]
@@ -636,8 +707,8 @@ theorem ref : ∀ fuel, Ref fuel := by
       ref_members fuel ih⟩
 
 
-theorem ctxOf_nil : ctxOf [] = ⟨0, false⟩ := rfl
-theorem ctxOf_trap : ctxOf [.trap] = ⟨0, false⟩ := by
+theorem ctxOf_nil : ctxOf [] = ⟨0, false, false⟩ := rfl
+theorem ctxOf_trap : ctxOf [.trap] = ⟨0, false, true⟩ := by
   simp [ctxOf, loops, Frame.retainsContext]
 
 theorem ref_script (fuel : Nat) :
@@ -656,17 +727,33 @@ theorem ref_script (fuel : Nat) :
         exact relS_mk ⟨st0, rfl⟩
       | cmds l =>
         simp only [runScript, specScript]
-        have b1 := (bal fuel).list s l
-        have h1 := (ref fuel).list s s' l h
-        rw [hs, ctxOf_nil] at h1
-        obtain ⟨s1, r, st1, hx, hy⟩ := relS_cases h1
-        rw [hx] at b1
-        rw [hx, hy]
-        simp only at b1
-        cases r with
-        | continue_ => exact ih s1 _ rest ⟨st1, rfl⟩ (b1.trans hs)
-        | break_ d => simp only [applyResult_stack']; exact relS_mk ⟨st1, rfl⟩
-        | outOfFuel => simp only [applyResult_stack']; exact relS_mk ⟨st1, rfl⟩
+        obtain ⟨st0, rfl⟩ := h
+        -- the poll before the command line
+        have bp := pollWith_stack (execList fuel) (fun a b => (bal fuel).list a b) s .continue_
+        have hp := relS_pollWith (execList fuel) (specList fuel)
+          (fun a b l hab => (ref fuel).list a b l hab) s st0 .continue_
+        rw [hs, ctxOf_nil] at hp
+        obtain ⟨s0, r0, stp, hxp, hyp⟩ := relS_cases hp
+        rw [hxp] at bp
+        rw [hxp, hyp]
+        simp only at bp
+        have hs0 : s0.stack = [] := bp.trans hs
+        cases r0 with
+        | outOfFuel => simp only [applyResult_stack']; exact relS_mk ⟨stp, rfl⟩
+        | break_ d => simp only [applyResult_stack']; exact relS_mk ⟨stp, rfl⟩
+        | continue_ =>
+          simp only
+          have b1 := (bal fuel).list s0 l
+          have h1 := (ref fuel).list s0 { s0 with stack := stp } l ⟨stp, rfl⟩
+          rw [hs0, ctxOf_nil] at h1
+          obtain ⟨s1, r, st1, hx, hy⟩ := relS_cases h1
+          rw [hx] at b1
+          rw [hx, hy]
+          simp only at b1
+          cases r with
+          | continue_ => exact ih s1 _ rest ⟨st1, rfl⟩ (b1.trans hs0)
+          | break_ d => simp only [applyResult_stack']; exact relS_mk ⟨st1, rfl⟩
+          | outOfFuel => simp only [applyResult_stack']; exact relS_mk ⟨st1, rfl⟩
 
 theorem ref_exitTrap (fuel : Nat) (s : St) (st0 : List Frame) (hs : s.stack = []) :
     RelS (runExitTrap fuel s) (specExitTrap fuel { s with stack := st0 }) := by
@@ -715,13 +802,22 @@ theorem ref_shell (fuel : Nat) (s : St) (script : List Line) (hs : s.stack = [])
         | syntaxError => simp [runScript]
         | cmds l =>
           simp only [runScript]
-          have h := (bal fuel).list s l
-          generalize execList fuel s l = x at *
-          obtain ⟨s1, r⟩ := x
-          cases r with
-          | continue_ => simp only; rw [ih s1 rest (h.trans hs)]; exact h
-          | break_ d => simpa using h
-          | outOfFuel => simpa using h
+          have hp := pollWith_stack (execList fuel) (fun a b => (bal fuel).list a b) s .continue_
+          generalize pollWith (execList fuel) s .continue_ = xp at *
+          obtain ⟨s0, r0⟩ := xp
+          simp only at hp
+          cases r0 with
+          | outOfFuel => simpa using hp
+          | break_ d => simpa using hp
+          | continue_ =>
+            simp only
+            have h := (bal fuel).list s0 l
+            generalize execList fuel s0 l = x at *
+            obtain ⟨s1, r⟩ := x
+            cases r with
+            | continue_ => simp only; rw [ih s1 rest ((h.trans hp).trans hs)]; exact h.trans hp
+            | break_ d => simpa using h.trans hp
+            | outOfFuel => simpa using h.trans hp
   obtain ⟨s1, r, st1, hx, hy⟩ := relS_cases (ref_script fuel s s script (sbs_refl s) hs)
   rw [hx] at b1
   rw [hx, hy]
